@@ -1,5 +1,5 @@
 (* C10 — refresh tokens are client-bound, never widen or extend the grant, and rotate. *)
-From Verif Require Import Base Scope Types Prog Pop Token Authorize System Config Run Monitors Fresh FreshHandlers OneShot HistProps.
+From Verif Require Import Base Scope Types Prog Pop Token Authorize System Config Run Monitors Fresh FreshHandlers OneShot HistProps C04Resources.
 Local Open Scope N_scope.
 
 (* For every store and refresh request that yields tokens: the presented token indexes a stored
@@ -21,9 +21,32 @@ Theorem refresh_bound : forall w n now r st t,
     g_id g' = g_id g /\ g_expires g' = g_expires g /\ g_granted g' = g_granted g /\
     g_client g' = g_client g /\ g_subject g' = g_subject g /\
     g_refresh g' = (if cf_refresh_rotation (w_cfg w) then mint n KRefresh else g_refresh g) /\
-    tr_rt t = (if cf_refresh_rotation (w_cfg w) then mint n KRefresh else 0).
+    tr_rt t = (if cf_refresh_rotation (w_cfg w) then mint n KRefresh else 0) /\
+    (* resource indicators: the requested resources are among the granted ones, which stay as they were;
+       the refreshed token is for the requested resources, or for all granted ones when none is named *)
+    validate_resources (w_cfg w) (g_granted_res g) (t_resources r) = true /\
+    g_granted_res g' = g_granted_res g /\
+    g_active_res g' = (if cf_resource_enabled (w_cfg w)
+                       then (if no_res (t_resources r) then g_granted_res g else t_resources r)
+                       else g_active_res g).
 Proof. exact refresh_grant_post. Qed.
 Print Assumptions refresh_bound.
+
+(* A refresh can narrow but never widen the resources: for every store and refresh request that yields
+   tokens, the granted resources of the re-saved grant are those of the grant presented, and the
+   resources of the new token lie within them whenever those of the old one did (which holds in every
+   reachable state: Props/C04.v, resources_within_grant) - so a later refresh may return to the full grant
+   but never beyond it, along chains of any length. *)
+Theorem refresh_never_widens_resources : forall w n now r st t,
+  snd (run_seq (refresh_grant w n now r) st) = OTokens t ->
+  exists g g',
+    find (fun g => ideq (g_refresh g) (t_refresh r)) (st_gsess st) = Some g /\
+    st_gsess (fst (run_seq (refresh_grant w n now r) st)) = put_gsess g' (st_gsess st) /\
+    g_id g' = g_id g /\ g_granted_res g' = g_granted_res g /\
+    ((forall x, In x (g_active_res g) -> In x (g_granted_res g)) ->
+     forall x, In x (g_active_res g') -> In x (g_granted_res g')).
+Proof. exact C04Resources.refresh_never_widens_resources. Qed.
+Print Assumptions refresh_never_widens_resources.
 
 (* Over every history: with rotation enabled, a refresh token through which a refresh succeeded is
    never accepted again (chains of any length, any interleaving with other operations). *)
